@@ -79,10 +79,28 @@ func c04Schema() string {
 	return b.String()
 }
 
+// the defaults of `In`'s fields as the loaded root holds them (the loader may have coerced them: Int 5 is then an
+// int32, not the int64 the scanner produced); read through the public API after loading
+var c04Defaults = map[string]T{}
+
+func c04LoadDefaults(root *ggql.Root) {
+	if in, _ := root.GetType("In").(*ggql.Input); in != nil {
+		for _, f := range in.Fields() {
+			if f.Default != nil {
+				c04Defaults[f.Name()] = govToVal(f.Default, hintSet{})
+			}
+		}
+	}
+}
+
 func c04InputsTerm() T {
 	fs := []T{S("In")}
 	for _, f := range c04InFields {
-		fs = append(fs, N("f", S(f.name), f.t.term, f.dt))
+		dt := f.dt
+		if d, ok := c04Defaults[f.name]; ok {
+			dt = d
+		}
+		fs = append(fs, N("f", S(f.name), f.t.term, dt))
 	}
 	return L(N("input", fs...))
 }
@@ -241,6 +259,11 @@ func (g *c04Gen) value(t *c04Type, depth int) c04Val {
 	if r.Chance(6) {
 		return c04Val{lit: "null", term: N("go", N("nil")), gov: nil}
 	}
+	// an object literal where the declared type is not an input object (a scalar, an enum, a list — also a list of
+	// input objects)
+	if t.kind != "input" && t.kind != "nn" && r.Chance(4) {
+		return c04Val{lit: "{a: 1}", term: N("obj", N("kv", S("a"), N("go", N("int", A("i64"), I(1))))), gov: map[string]interface{}{"a": int64(1)}}
+	}
 	switch t.kind {
 	case "scalar":
 		return g.scalarValue(t.scal, r.Chance(18))
@@ -258,6 +281,11 @@ func (g *c04Gen) value(t *c04Type, depth int) c04Val {
 		return g.value(t.base, depth)
 	case "list":
 		if r.Chance(7) {
+			if r.Bool() {
+				// a symbol where a list is declared (a list of enums, of lists of enums, or of anything else)
+				n := Pick(r, []string{"RED", "GREEN", "BLUE"})
+				return c04Val{lit: n, term: N("go", N("sym", S(n))), gov: ggql.Symbol(n)}
+			}
 			return g.scalarValue("int", false) // a non-list where a list is declared
 		}
 		n := r.Intn(4)
@@ -465,6 +493,7 @@ func init() {
 		if err := root.ParseString(c04Schema()); err != nil {
 			panic(err)
 		}
+		c04LoadDefaults(root)
 		n := 6000
 		if tier == "thorough" {
 			n = 300000
